@@ -230,6 +230,12 @@ func (fs *verifFileSystem) crash(i, cut int, powerLoss bool) {
 		case 's':
 			f.d = append([]byte{}, f.v...)
 			f.dExists = f.exists
+		case 't':
+			v := append([]byte{}, f.v...)
+			for len(v) < e.off {
+				v = append(v, 0)
+			}
+			f.v = v[:e.off]
 		}
 	}
 	for k := 0; k < i && k < len(fs.journal); k++ {
@@ -249,4 +255,25 @@ func (fs *verifFileSystem) crash(i, cut int, powerLoss bool) {
 		}
 	}
 	fs.journal = nil
+}
+
+// further *os.File methods a change to the store may start using
+func (f *verifFile) WriteString(s string) (int, error) { return f.Write([]byte(s)) }
+
+func (f *verifFile) WriteAt(p []byte, off int64) (int, error) {
+	save := f.off
+	f.off = int(off)
+	n, err := f.Write(p)
+	f.off = save
+	return n, err
+}
+
+func (f *verifFile) Truncate(size int64) error {
+	v := append([]byte{}, f.data.v...)
+	for int64(len(v)) < size {
+		v = append(v, 0)
+	}
+	f.data.v = v[:size]
+	vfs.journal = append(vfs.journal, verifEffect{kind: 't', file: f.data, off: int(size)})
+	return nil
 }
